@@ -1034,6 +1034,9 @@ def make_segment(data, mode, encoding=None):
     if segment_mode != consts.MODE_BYTE:
         segment_encoding = None
     char_count = segment_length if segment_mode not in (consts.MODE_KANJI, consts.MODE_HANZI) else segment_length // 2
+    if char_count * 2 != segment_length and segment_mode in (consts.MODE_KANJI, consts.MODE_HANZI):
+        raise ValueError(f'The provided mode "{get_mode_name(segment_mode)}" '
+                         f'is not applicable for {segment_data!r}: odd number of bytes')
     buff = Buffer()
     append_bits = buff.append_bits
     if segment_mode == consts.MODE_NUMERIC:
